@@ -141,12 +141,39 @@ func checkC09(c *Ctx) {
 
 // closureModes: closures passed to withMailbox → writeLock constant (true/false) or "?"
 func (c *Ctx) withMailboxClosures(withMailbox *ssa.Function) map[*ssa.Function]string {
+	p := c.P
 	out := map[*ssa.Function]string{}
 	var lm *mbLockModel
-	if fMu := c.P.MutexField("pkg/storage/mem", "mbox"); fMu != nil {
+	if fMu := p.MutexField("pkg/storage/mem", "mbox"); fMu != nil {
 		lm = c.mbLocks(withMailbox, fMu)
 	}
-	for _, fn := range pkgFuncs(c.P, "pkg/storage/mem") {
+	merge := func(g *ssa.Function, mode string) {
+		if old, has := out[g]; has && old != mode {
+			mode = "?"
+		}
+		out[g] = mode
+	}
+	// modeAt: the mode of a withMailbox call; a mode argument that is a parameter of the
+	// enclosing helper is taken from the helper's call site cs (nil: not substituted)
+	modeAt := func(args []ssa.Value, g *ssa.Function, cs *eng.CallSite) string {
+		if lm == nil {
+			return "?"
+		}
+		if cs != nil {
+			sub := append([]ssa.Value(nil), args...)
+			for i, a := range sub {
+				if prm, ok := a.(*ssa.Parameter); ok && prm.Parent() == g {
+					if pi := eng.ParamIndex(prm); pi >= 0 && pi < len(cs.Args) {
+						sub[i] = cs.Args[pi]
+					}
+				}
+			}
+			args = sub
+		}
+		return lm.argMode(args)
+	}
+	for _, fn := range pkgFuncs(p, "pkg/storage/mem") {
+		fn := fn
 		eng.EachInstr(fn, func(in ssa.Instruction) {
 			call, ok := in.(*ssa.Call)
 			if !ok || eng.StaticCallee(call.Common()) != withMailbox {
@@ -157,15 +184,60 @@ func (c *Ctx) withMailboxClosures(withMailbox *ssa.Function) map[*ssa.Function]s
 			if !ok {
 				return
 			}
-			mode := "?"
-			if lm != nil {
-				mode = lm.argMode(args)
+			cl := mc.Fn.(*ssa.Function)
+			mode := modeAt(args, fn, nil)
+			sites := p.StaticCallSites(fn)
+			if mode == "?" && fn.Parent() == nil && len(sites) > 0 {
+				// a helper that forwards its own mode parameter (findMessage(box, id, writeLock, …)):
+				// the weakest mode any caller asks for
+				mode = ""
+				for i := range sites {
+					switch ms := modeAt(args, fn, &sites[i]); {
+					case ms == "?":
+						mode = "?"
+					case mode == "":
+						mode = ms
+					case mode != ms && mode != "?":
+						mode = "r"
+					}
+				}
 			}
-			g := mc.Fn.(*ssa.Function)
-			if old, has := out[g]; has && old != mode {
-				mode = "?"
-			}
-			out[g] = mode
+			merge(cl, mode)
+			// callbacks: a function parameter of the helper that the closure calls while the
+			// lock is held; each function passed for it runs under the mode of that call
+			eng.EachInstr(cl, func(ci ssa.Instruction) {
+				cc, ok := ci.(*ssa.Call)
+				if !ok || cc.Call.IsInvoke() || eng.StaticCallee(cc.Common()) != nil {
+					return
+				}
+				var fp *ssa.Parameter
+				switch v := cc.Call.Value.(type) {
+				case *ssa.UnOp:
+					if cell := eng.CellOf(v.X); cell != nil {
+						if sts := eng.CellStores(cell); len(sts) == 1 {
+							fp, _ = sts[0].Val.(*ssa.Parameter)
+						}
+					}
+				case *ssa.FreeVar:
+					for i, fv := range cl.FreeVars {
+						if fv == v && i < len(mc.Bindings) {
+							fp, _ = mc.Bindings[i].(*ssa.Parameter)
+						}
+					}
+				}
+				if fp == nil || fp.Parent() != fn {
+					return
+				}
+				pi := eng.ParamIndex(fp)
+				for i := range sites {
+					if pi < 0 || pi >= len(sites[i].Args) {
+						continue
+					}
+					if h, _, ok := eng.FuncValueOf(sites[i].Args[pi]); ok && h != nil {
+						merge(h, modeAt(args, fn, &sites[i]))
+					}
+				}
+			})
 		})
 	}
 	return out
@@ -833,6 +905,50 @@ func (c *Ctx) c09File(pm *pairModel) {
 					return
 				}
 				prm, isParam := call.Call.Value.(*ssa.Parameter)
+				if !isParam && g.Parent() != nil {
+					// the visitor captured by a callback: f(msgs) inside func(name) {…}
+					if u, isU := call.Call.Value.(*ssa.UnOp); isU {
+						if cell := eng.CellOf(u.X); cell != nil {
+							if sts := eng.CellStores(cell); len(sts) == 1 {
+								prm, isParam = sts[0].Val.(*ssa.Parameter)
+							}
+						}
+					}
+					if isParam && prm.Parent() == vm {
+						// the callback runs where the helper it is handed to calls it: no lock
+						// may be held there, nor where the helper is called
+						for h := g; h != nil && h != vm; h = h.Parent() {
+							eng.EachInstr(h.Parent(), func(pi ssa.Instruction) {
+								pc, ok := pi.(*ssa.Call)
+								if !ok {
+									return
+								}
+								for ai, a := range pc.Call.Args {
+									mc, ok := a.(*ssa.MakeClosure)
+									if !ok || mc.Fn != ssa.Value(h) {
+										continue
+									}
+									for _, lo := range locks {
+										if !neverHeld(h.Parent(), pi, lo) {
+											held = true
+										}
+									}
+									if hf := eng.StaticCallee(pc.Common()); hf != nil && ai < len(hf.Params) && len(hf.Blocks) > 0 {
+										eng.EachInstr(hf, func(hi ssa.Instruction) {
+											if hc, ok := hi.(*ssa.Call); ok && hc.Call.Value == ssa.Value(hf.Params[ai]) {
+												for _, lo := range locks {
+													if !neverHeld(hf, hi, lo) {
+														held = true
+													}
+												}
+											}
+										})
+									}
+								}
+							})
+						}
+					}
+				}
 				if !isParam {
 					return
 				}
